@@ -68,6 +68,13 @@ TEXT.update({
            "TLC design model (incl. reachability witness of the stall) + scenario scripts + " + TRACE_TECH + "clauses C18_*", "4/C18"),
 })
 
+TEXT.update({
+ "C19": _t("At TLC-/generator-chosen metaepoch boundaries k the recorder dumps the live tree, checks that dumping is a stutter (digest of the whole tree and of the global random state unchanged), loads the snapshot and compares projection, summary() and stop-condition verdict (clauses C19_DumpIsStutter, C19_LoadEqualsSnapshot, C19_SummarySame, C19_VerdictSame evaluated by TLC), then runs the loaded tree to its end under its own recorder copy: the continued trace is validated by HMSTrace from the restored state (structure, level limit, accounting, best never worse = C19_ContinuationValid). Engines incl. CMA, SHADE, LHS/Sobol, LOCAL; objectives as callables and lambdas.",
+           TRACE_TECH + "clauses C19_* and HMS.tla invariants on the continuation of the restored tree", "4/C19"),
+ "C20": _t("At every loop-head boundary of ~40% of the corpus the recorder calls every reporting/query accessor twice, parses summary()/tree() and logs parsed fields, purity (tree + RNG digest unchanged, no objective call) and idempotence; Report.tla defines the required content as a function of the projected tree and TLC compares (header, per-level numbers, one line per displayed deme with its evaluation count, *** exactly on demes holding the global best).",
+           TRACE_TECH + "Report.tla clauses C20_*", "4/C20"),
+})
+
 NOT_YET = "check not built yet in this round (see DESIGN.md section 4); no claim is made"
 
 
